@@ -27,7 +27,15 @@ for sid in sorted(d for d in os.listdir(root) if os.path.isdir(os.path.join(root
         obl=[re.sub(r' \[.*','',l[len('FAILED obligation '):]) for l in txt.split('\n') if l.startswith('FAILED obligation ')]
         und=[l for l in txt.split('\n') if l.startswith('UNDECIDED')]
         det[p]={"exit":int(ex.group(1)) if ex else None,"failed_obligations":obl,"undecided":len(und)}
-    meta={"id":sid,"property":prop,"title":title,"files_changed":files,"rebased_onto_fixes":os.path.exists(os.path.join(d,'patch.original.diff')),
+    nl=notes.split('\n'); needs=[]
+    for i,l in enumerate(nl):
+        if i>0 and re.search(r'\bneeds?\b|manifest|trigger',l,re.I):
+            t=l.strip(' -*#')
+            if l.lstrip().startswith('#') or len(t)<40:   # a heading: take the paragraph below it
+                t=(t+': '+' '.join(x.strip(' -*') for x in nl[i+1:i+8] if x.strip() and not x.lstrip().startswith('#'))).strip()
+            needs.append(t[:600])
+            if len(needs)>=2: break
+    meta={"id":sid,"property":prop,"title":title,"needs_to_manifest":needs,"what_was_run":"tools/seedconfirm.sh (scratch worktree: patch applies, go build, demonstration passes without / fails with the change, full suite passes with it) and the quick check of the property (tools/seeddetect_wt.sh / pardetect.py); see confirmation and detection below","files_changed":files,"rebased_onto_fixes":os.path.exists(os.path.join(d,'patch.original.diff')),
           "demonstration":{"file":"demo_test.go","package_dir":conf.get('demo_dir'),"test":conf.get('demo_test')},
           "confirmation":conf,"confirmed":confirmed,"detection":det,
           "apply":"git -C /repo apply /verif/seeded/%s/patch.diff"%sid,"undo":"git -C /repo apply -R /verif/seeded/%s/patch.diff"%sid}
